@@ -1186,8 +1186,14 @@ def replay(ctx, K):
         nf, fails = oracle_failures(lines, K)
         ctx.count(("replay", "ctx"), n=max(nf, 1))
         ctx.sample(dict(replayed_scenario_lines=len(lines), failures=[f[1][:200] for f in fails[:3]]))
-        if rc != 0 or fails:
-            ctx.violation(rp, what="replay: " + (fails[0][1] if fails else "harness rc=%d" % rc), key=(fails[0][2] if fails else det.get("key")))
+        seen = set()
+        for f in fails:                      # one report per class: unkeyed failures first-come, known findings by key
+            if f[2] in seen:
+                continue
+            seen.add(f[2])
+            ctx.violation(rp, what="replay: " + f[1], key=f[2])
+        if rc != 0 and not fails:
+            ctx.violation(rp, what="replay: harness rc=%d" % rc, key=det.get("key"))
         return
     lines = None
     if "history_prefix" in det:
